@@ -26,6 +26,7 @@ Section ExprInd.
   Hypothesis H_multi : forall o imms args outs, Forall P args -> P (EMulti o imms args outs).
   Hypothesis H_call : forall s t args, Forall P args -> P (ECall s t args).
   Hypothesis H_wide : forall ns ds, Forall P ns -> Forall P ds -> P (EWide ns ds).
+  Hypothesis H_param : forall i, P (EParam i).
 
   Fixpoint expr_ind' (e : expr) : P e :=
     let fl := (fix go (l : list expr) : Forall P l :=
@@ -58,6 +59,7 @@ Section ExprInd.
     | EMulti o imms args outs => H_multi o imms args outs (fl args)
     | ECall s t args => H_call s t args (fl args)
     | EWide ns ds => H_wide ns ds (fl ns) (fl ds)
+    | EParam i => H_param i
     end.
 End ExprInd.
 
@@ -351,8 +353,8 @@ Proof.
   - (* EWhile *)
     destruct (add_block g (BSimple [] k)) as [en g1] eqn:E1.
     destruct (reserve g1) as [br g2] eqn:E2.
-    destruct (lower o (mkL (l_sub_ret c) (Some en) None) e1 (Some br) g2) as [[cs ce] g3] eqn:E3.
-    destruct (lower o (mkL (l_sub_ret c) (Some en) (Some cs)) e2 (Some cs) g3) as [[ds de] g4] eqn:E4.
+    destruct (lower o (mkL (l_sub_ret c) (Some en) None (l_param c)) e1 (Some br) g2) as [[cs ce] g3] eqn:E3.
+    destruct (lower o (mkL (l_sub_ret c) (Some en) (Some cs) (l_param c)) e2 (Some cs) g3) as [[ds de] g4] eqn:E4.
     inversion E; subst; clear E.
     destruct (add_block_spec _ _ _ _ W E1) as (F1 & _ & Ien & Nen).
     destruct (reserve_spec _ _ _ (frame_wf _ _ F1) E2) as (F2 & _ & Ibr & Nbr).
@@ -372,10 +374,10 @@ Proof.
   - (* EFor *)
     destruct (add_block g (BSimple [] k)) as [en g1] eqn:E1.
     destruct (reserve g1) as [br g2] eqn:E2.
-    destruct (lower o (mkL (l_sub_ret c) (Some en) None) e2 (Some br) g2) as [[cs ce] g3] eqn:E3.
-    destruct (lower o (mkL (l_sub_ret c) (Some en) None) e3 (Some cs) g3) as [[ss se] g4] eqn:E4.
-    destruct (lower o (mkL (l_sub_ret c) (Some en) (Some ss)) e4 (Some ss) g4) as [[ds de] g5] eqn:E5.
-    destruct (lower o (mkL (l_sub_ret c) (Some en) None) e1 (Some cs) g5) as [[is_ ie] g6] eqn:E6.
+    destruct (lower o (mkL (l_sub_ret c) (Some en) None (l_param c)) e2 (Some br) g2) as [[cs ce] g3] eqn:E3.
+    destruct (lower o (mkL (l_sub_ret c) (Some en) None (l_param c)) e3 (Some cs) g3) as [[ss se] g4] eqn:E4.
+    destruct (lower o (mkL (l_sub_ret c) (Some en) (Some ss) (l_param c)) e4 (Some ss) g4) as [[ds de] g5] eqn:E5.
+    destruct (lower o (mkL (l_sub_ret c) (Some en) None (l_param c)) e1 (Some cs) g5) as [[is_ ie] g6] eqn:E6.
     inversion E; subst; clear E.
     destruct (add_block_spec _ _ _ _ W E1) as (F1 & _ & Ien & Nen).
     destruct (reserve_spec _ _ _ (frame_wf _ _ F1) E2) as (F2 & _ & Ibr & Nbr).
@@ -454,4 +456,7 @@ Proof.
     { eapply lower_factors_frame; [|exact (frame_wf _ _ F2)|exact E3].
       eapply Forall_impl; [|exact H]. intros a Ha. apply Ha. }
     eapply frame_trans; [exact F1|]. eapply frame_trans; eauto.
+  - (* EParam *)
+    destruct (add_block g (BSimple [l_param c i] k)) as [b g1] eqn:E1. inversion E; subst.
+    apply (add_block_spec _ _ _ _ W E1).
 Qed.
